@@ -47,7 +47,8 @@ func (r *Run) fault(k CallKey) error {
 	case FaultNth:
 		return nil // not a resolver failure: the list accessor fails later
 	case FaultExt:
-		return &ggql.Error{Base: fmt.Errorf("%w ext at %s", ErrInjected, k), Extensions: map[string]interface{}{"code": "E1"}}
+		// the error carries a position of its own (say, inside some text the resolver parsed): it is not a position in the request
+		return &ggql.Error{Base: fmt.Errorf("%w ext at %s", ErrInjected, k), Line: 977, Column: 0, Extensions: map[string]interface{}{"code": "E1"}}
 	case FaultSecond:
 		if r.Seen == nil {
 			r.Seen = map[CallKey]int{}
